@@ -6,6 +6,7 @@ import (
 	"bytes"
 	"crypto/cipher"
 	"fmt"
+	"os"
 	"runtime"
 	"testing"
 
@@ -91,7 +92,9 @@ func dispatchSelfTest() error {
 		h.Observe("block", fmt.Sprintf("%T", blk))
 		h.Observe(kindNames[kind]+".aead", fmt.Sprintf("%T", a))
 	}
-	if runtime.GOARCH != "amd64" {
+	// only under the driver (which sets VERIF_CFG and the matching
+	// environment); `-test.list` and bare `go test` runs skip the assertion
+	if _, driven := os.LookupEnv("VERIF_CFG"); !driven || runtime.GOARCH != "amd64" {
 		return nil
 	}
 	if want, ok := expectedTypes[h.Cfg]; ok {
